@@ -44,6 +44,8 @@ BATTERY = [  # (label, policies, request delta)
     ('the principal does not exist, scope only', 'permit(principal in Group::"g", action, resource);', {'principal': 'User::"nobody"'}),
     ('context decides', P_ALL + ' forbid(principal, action, resource) when { context.flag };', {'context': {'flag': True}}),
     ('two policies needing different entities', 'permit(principal, action, resource) when { principal.manager.level == 1 }; forbid(principal, action, resource) when { resource.owner.manager.manager.level == 0 };', {}),
+    ('a has-test on a failing chain next to a false conjunct, inside unless', P_ALL + ' forbid(principal, action, resource) unless { resource.owner.manager has name && context.flag };', {'resource': 'Photo::"q"'}),
+    ('a has-test on a failing chain next to a true disjunct', 'permit(principal, action, resource) when { resource.owner.manager has name || !context.flag };', {'resource': 'Photo::"q"'}),
     ('resource in a group reached through the principal', 'permit(principal, action, resource) when { resource in Group::"g" && principal.manager.manager.manager.name == "c" };', {}),
 ]
 BUDGETS = [0, 1, 2, 3, 4, 5, 6, 9]
@@ -55,10 +57,12 @@ def battery_replay(ctx, name, role, why):
     if 'result' in cache:
         r = cache['result']
         return ctx.violation(name, role, f'{why}; natively: {r[0]}', r[1]) if r[0] else ('unreplayed', f'{why}; but the batched-authorization battery behaves as specified')
-    for label, pols, delta in BATTERY:
+    for label, pols, delta, prefetch in [(a, b, c, pf) for pf in (False, True) for (a, b, c) in BATTERY]:
         rq = dict(REQ)
         rq.update(delta)
-        q = {'op': 'batched', 'schema': SCHEMA, 'policies': pols, 'entities': STORE, 'request': rq, 'budgets': BUDGETS}
+        q = {'op': 'batched', 'schema': SCHEMA, 'policies': pols, 'entities': STORE, 'request': rq, 'budgets': BUDGETS, 'prefetch': prefetch}
+        if prefetch:
+            label += ' (loader that also returns the ancestors of what was requested)'
         a = ctx.native.ask(q)
         if 'batched' not in a:
             return ctx.mismatch(name, f'batched probe `{label}`: {a}')
@@ -84,7 +88,7 @@ def battery_replay(ctx, name, role, why):
             cache['result'] = (what, dict(q, problems=problems))
             return ctx.violation(name, role, f'{why}; natively: {what}', cache['result'][1])
     cache['result'] = (None, None)
-    return ('unreplayed', f'{why}; but the battery of {len(BATTERY)} batched-authorization scenarios x {len(BUDGETS)} budgets behaves as specified')
+    return ('unreplayed', f'{why}; but the battery of {len(BATTERY)} batched-authorization scenarios x {len(BUDGETS)} budgets x 2 loaders behaves as specified')
 
 
 def battery_selftest(ctx):
@@ -462,7 +466,7 @@ def run(ctx):
     ctx.run_families(families(ctx))
     ctx.guarded('native battery', lambda: battery_selftest(ctx))
     ctx.bounds += [f'driver loop: (budget, entity ids, residual policies) in {CONFIGS}, everything the residuals say (partial or not, which ids they mention, after each evaluation) symbolic; '
-                   'more policies / ids / iterations are outside the symbolic claim', f'native battery: {len(BATTERY)} scenarios x budgets {BUDGETS}']
+                   'more policies / ids / iterations are outside the symbolic claim', f'native battery: {len(BATTERY)} scenarios x budgets {BUDGETS} x (exact loader, loader returning extra entities)']
     ctx.assumptions += ['tpe::Evaluator::interpret, policy_residual_map, Residual::all_literal_uids, PartialEntities::{add_entities, add_entity_trusted, contains_entity}, PartialEntity::try_from, tpe::Response::{new, decision} and the loader '
                         'are environment stubs: that a residual keeps the meaning of its policy, that all_literal_uids lists every id, and the response table (C14) are NOT decided here',
                         'the loader answers exactly the requested ids (its documented contract allows more); validated policies and schema-conformant data are a precondition of the property and of the battery']
